@@ -329,7 +329,7 @@ PROPS = {
                             "C07_export_object", "C07_export_object_last_wins", "C07_norm_export_shape",
                             "C07_table_refines", "C07_table_no_panic", "C07_table_mappings",
                             "C07_table_versions_by_name", "C07_table_packages", "C07_table_packages_with_deps",
-                            "C07_table_sets", "C07_registry_redirect"],
+                            "C07_table_sets", "C07_registry_redirect", "C07_registry_table"],
         "rule": ("four streams by case number. (url) registry URLs as serialised by url::Url (6 plain http(s) directory "
                  "URLs incl. userinfo/port/sub-path, 8 odd ones: no trailing slash, query, fragment, file:, custom scheme) x "
                  "package names (@scope/name from a 6-letter alphabet so prefixes collide, no-@ scopes, 25 adversarial: "
@@ -356,7 +356,7 @@ PROPS = {
             "PackageSpecifiers::{ensure_package, add_dependency, add_export, add_top_level_package, add_used_yanked_package, top_level_packages} are pub(crate): the real table is driven through add_nv and fill_from_lockfile only; the other operations are covered by the theorems but not by the correspondence until the builder model drives them",
             "known findings F-C07a (loose version text), F-C07b (doubled slash), F-C07c (registry URL that is not a plain directory URL), F-C07d (scheme-like scope) are reported as KNOWN-FINDING; the model/implementation comparison of all values is NOT suspended for them",
         ],
-        "partial": ["builder-level part of C07: the redirect of a jsr: specifier is proved to be the selected version's export URL (C07_registry_redirect); unknown-export errors and the table operations the builder issues are decided per case by the registry stream",
+        "partial": ["builder-level part of C07: the redirect of a jsr: specifier is proved to be the selected version's export URL (C07_registry_redirect); that every mapped version satisfies its requirement and every recorded export is an export of the manifest is proved too (C07_registry_table); unknown-export errors, dependency edges and the remaining table contents are decided per case by the registry stream",
                     "no-misattribution is proved outside four input classes; the unrestricted statement is refuted (4 witnesses)"],
     },
     "C05": {
